@@ -116,7 +116,7 @@ Definition u_le (n : nat) (bs : list Z) (off : nat) : Z :=
 
 Definition pair_of_bits (c : N * N) : option centroid :=
   match Q_of_bits (Nz (fst c)) with
-  | Some q => if (0 <? snd c)%N then Some (q, N.to_pos (snd c)) else None
+  | Some q => if (0 <? snd c)%N then Some (q, Z.to_pos (Nz (snd c))) else None
   | None => None
   end.
 
@@ -180,18 +180,18 @@ Definition spec_step (st : sslots) (o : zop) : sslots * list Z :=
          | Some s => let b := nth 1 a 0 in
                      if is_nan_b b || is_inf_b b then (st, [])
                      else (sput st slot (mkSpec (sp_k s) (sp_n s + 1) (bmin (sp_min s) b) (bmax (sp_max s) b) (sp_inproc s)), [])
-         | None => (st, PANIC) end
+         | None => (st, EMPTY) end
   | 2 => match sget st slot, sget st (nth 1 a 0) with
          | Some s, Some o => if sp_n o =? 0 then (st, [])
                              else (sput st slot (mkSpec (sp_k s) (sp_n s + sp_n o) (bmin2 (sp_min s) (sp_min o))
                                                         (bmax2 (sp_max s) (sp_max o)) (sp_inproc s && sp_inproc o)), [])
-         | _, _ => (st, PANIC) end
-  | 7 => match sget st slot with Some s => (st, [sp_n s]) | None => (st, PANIC) end
-  | 8 => match sget st slot with Some s => (st, obits (sp_min s)) | None => (st, PANIC) end
-  | 9 => match sget st slot with Some s => (st, obits (sp_max s)) | None => (st, PANIC) end
-  | 10 => match sget st slot with Some s => (st, [zbool (sp_n s =? 0)]) | None => (st, PANIC) end
-  | 17 => match sget st slot with Some s => (st, [sp_k s]) | None => (st, PANIC) end
-  | 14 => match sget st slot with Some s => (st, [1]) | None => (st, PANIC) end
+         | _, _ => (st, EMPTY) end
+  | 7 => match sget st slot with Some s => (st, [sp_n s]) | None => (st, EMPTY) end
+  | 8 => match sget st slot with Some s => (st, obits (sp_min s)) | None => (st, EMPTY) end
+  | 9 => match sget st slot with Some s => (st, obits (sp_max s)) | None => (st, EMPTY) end
+  | 10 => match sget st slot with Some s => (st, [zbool (sp_n s =? 0)]) | None => (st, EMPTY) end
+  | 17 => match sget st slot with Some s => (st, [sp_k s]) | None => (st, EMPTY) end
+  | 14 => match sget st slot with Some s => (st, [1]) | None => (st, EMPTY) end
   | 15 | 21 => match spec_of_image (code =? 21) (skipn 1 a) with
           | Ok s => (sput st slot s, [1])
           | Err => (st, ERR)
@@ -199,7 +199,7 @@ Definition spec_step (st : sslots) (o : zop) : sslots * list Z :=
           end
   | 19 => match sget st slot with
           | Some s => (sput st (nth 1 a 0) s, [1])
-          | None => (st, PANIC) end
+          | None => (st, EMPTY) end
   | _ => (st, [])
   end.
 
@@ -716,5 +716,136 @@ Fixpoint c15_from (st : sslots) (ops : list zop) (obs : list (list Z)) : bool :=
 
 Definition c15_ok (c : case) : bool := c15_from (repeat None 8) (c_ops c) (c_obs c).
 
+(* =====================================================================================
+   [codec_ok]: C11 / C12 / C18 on the bytes the crate emits (oracle 3).  For every image B the
+   crate serializes (op 20): the modelled reader accepts it and the modelled writer re-emits it
+   byte for byte; the independent layout decoder (Spec/TDigestLayout.v) reads from it exactly the
+   state the history implies (k, total weight, min, max) with sorted means; |B| = 8 | 16 | 32 + 16 n.
+   ===================================================================================== *)
+Definition nlist_eqb (a b : list N) : bool := list_eqb N.eqb a b.
+Definition pair_eqb (a b : N * N) : bool := (fst a =? fst b)%N && (snd a =? snd b)%N.
+Definition abs_of_tdb (s : tdb) : td_abs :=
+  mkTdAbs (b_k s) (b_rev s) (match b_cs s, b_buf s with [], [] => None | _, _ => Some (b_min s, b_max s) end) (b_cs s) (b_buf s).
+Definition omm_eqb (a b : option (N * N)) : bool :=
+  match a, b with Some x, Some y => pair_eqb x y | None, None => true | _, _ => false end.
+Definition abs_eqb (a b : td_abs) : bool :=
+  (a_k a =? a_k b)%N && Bool.eqb (a_rev a) (a_rev b) && omm_eqb (a_minmax a) (a_minmax b) &&
+  list_eqb pair_eqb (a_cs a) (a_cs b) && nlist_eqb (a_buf a) (a_buf b).
+Definition sumwN (cs : list (N * N)) : N := fold_right (fun c acc => (snd c + acc)%N) 0%N cs.
+
+Definition image_ok (s : spec) (B : list Z) : bool :=
+  let bs := map zN B in
+  match tdb_dec false bs, spec_decode Double bs with
+  | Ok t, Some a =>
+      nlist_eqb (tdb_enc t) bs && abs_eqb a (abs_of_tdb t) &&
+      (Nz (a_k a) =? sp_k s) && (Nz (sumwN (a_cs a)) =? sp_n s) && match a_buf a with [] => true | _ => false end &&
+      match a_minmax a with
+      | None => sp_n s =? 0
+      | Some (mn, mx) => list_eqb Z.eqb (obits (sp_min s)) [Nz mn] && list_eqb Z.eqb (obits (sp_max s)) [Nz mx]
+      end &&
+      match all_some (map pair_of_bits (a_cs a)) with Some cs => means_sorted cs | None => false end &&
+      (Z.of_nat (length B) =? (if sp_n s =? 0 then 8 else if sp_n s =? 1 then 16 else 32 + 16 * Z.of_nat (length (a_cs a))))
+  | _, _ => false
+  end.
+
+Definition codec_step (st : sslots) (o : zop) (ob : list Z) : bool :=
+  let '(code, a) := o in
+  if list_eqb Z.eqb ob PANIC then true else
+  match code with
+  | 20 => match sget st (nth 0 a 0) with Some s => image_ok s ob | None => true end
+  | _ => true
+  end.
+
+Fixpoint codec_from (st : sslots) (ops : list zop) (obs : list (list Z)) : bool :=
+  match ops, obs with
+  | o :: r, ob :: obr =>
+      codec_step st o ob && (if list_eqb Z.eqb ob PANIC then true else codec_from (fst (spec_step st o)) r obr)
+  | _, _ => true
+  end.
+Definition codec_ok (c : case) : bool := codec_from (repeat None 8) (c_ops c) (c_obs c).
+
+(* [twin_ok]: C11 on the crate alone (oracle 4): after `fork src dst` every operation applied to src
+   and then to dst must give identical observations (Base/Oracles.v) *)
+Definition twin_ok (c : case) : bool := twin_oracle 19 [0; 15; 21] c.
+
+(* =====================================================================================
+   [foreign_ok]: C13 (oracle 5).  An image that the layout decoder reads as an admissible state must
+   be accepted by the crate, and the decoded digest must hold exactly that state: k, total weight,
+   min, max, is_empty; its centroids bit for bit when nothing is buffered, and -- buffered values
+   being absorbed by the next compression -- a valid merge pass of (buffered values + centroids).
+   ===================================================================================== *)
+Definition is_ref_image (bs : list N) : bool := (nth 0 bs 1 =? 0)%N && (nth 1 bs 1 =? 0)%N && (nth 2 bs 1 =? 0)%N.
+Definition spec_decode_any (is_f32 : bool) (bs : list N) : option td_abs :=
+  if is_ref_image bs then spec_decode_ref bs else spec_decode (if is_f32 then Float else Double) bs.
+
+Definition fin64 (b : N) : bool := (b <? 18446744073709551616)%N && negb (is_nan64 b) && negb (is_inf64 b).
+(* admissible abstract states: what a conforming writer can hold *)
+Definition abs_admissible (a : td_abs) : bool :=
+  (10 <=? a_k a)%N && (a_k a <? 65536)%N &&
+  forallb (fun c => fin64 (fst c) && (1 <=? snd c)%N && (snd c <? 18446744073709551616)%N) (a_cs a) &&
+  forallb fin64 (a_buf a) &&
+  (sumwN (a_cs a) + N.of_nat (length (a_buf a)) <? 18446744073709551616)%N &&
+  match a_minmax a with
+  | None => match a_cs a, a_buf a with [], [] => true | _, _ => false end
+  | Some (mn, mx) => negb (is_nan64 mn) && negb (is_nan64 mx) && negb (match a_cs a, a_buf a with [], [] => true | _, _ => false end)
+  end.
+
+Definition fslots := list (option td_abs).
+Definition fget (st : fslots) (i : Z) : option td_abs := nth (Z.to_nat i) st None.
+
+Definition unitsN (l : list N) : list (N * N) := map (fun b => (b, 1%N)) l.
+
+Definition foreign_step (st : fslots) (o : zop) (ob : list Z) : fslots * bool :=
+  let '(code, a) := o in
+  let slot := nth 0 a 0 in
+  match code with
+  | 15 | 21 =>
+      match spec_decode_any (code =? 21) (map zN (skipn 1 a)) with
+      | Some x => if abs_admissible x then (set_nth (Z.to_nat slot) (Some x) st, list_eqb Z.eqb ob [1])
+                  else (set_nth (Z.to_nat slot) None st, true)
+      | None => (set_nth (Z.to_nat slot) None st, true)
+      end
+  | 17 => match fget st slot with Some x => (st, list_eqb Z.eqb ob [Nz (a_k x)]) | None => (st, true) end
+  | 7 => match fget st slot with
+         | Some x => (st, list_eqb Z.eqb ob [Nz (sumwN (a_cs x) + N.of_nat (length (a_buf x)))]) | None => (st, true) end
+  | 8 => match fget st slot with
+         | Some x => (st, list_eqb Z.eqb ob (match a_minmax x with Some (mn, _) => [Nz mn] | None => [NONE] end)) | None => (st, true) end
+  | 9 => match fget st slot with
+         | Some x => (st, list_eqb Z.eqb ob (match a_minmax x with Some (_, mx) => [Nz mx] | None => [NONE] end)) | None => (st, true) end
+  | 10 => match fget st slot with
+          | Some x => (st, list_eqb Z.eqb ob [zbool (match a_minmax x with None => true | Some _ => false end)]) | None => (st, true) end
+  | 12 => match fget st slot, parse_dump ob with
+          | Some x, Some D =>
+              (st,
+               (d_k D =? Nz (a_k x)) &&
+               match a_buf x with
+               | [] => Bool.eqb (d_rev D) (a_rev x) &&
+                       match all_some (map pair_of_bits (a_cs x)) with
+                       | Some cs => list_eqb c_eq cs (d_cs D)
+                       | None => false end
+               | _ => match all_some (map pair_of_bits (unitsN (a_buf x) ++ a_cs x)) with
+                      | Some input => valid_merge EPS (a_rev x) input (d_cs D)
+                      | None => false end
+               end)
+          | Some _, None => (st, false)
+          | None, _ => (st, true)
+          end
+  | 1 | 2 | 11 | 14 | 16 | 19 | 0 => (set_nth (Z.to_nat slot) None st, true)
+  | _ => (st, true)
+  end.
+
+Fixpoint foreign_from (st : fslots) (ops : list zop) (obs : list (list Z)) : bool :=
+  match ops, obs with
+  | o :: r, ob :: obr =>
+      let '(st', ok) := foreign_step st o ob in
+      ok && (if list_eqb Z.eqb ob PANIC then true else foreign_from st' r obr)
+  | _, _ => true
+  end.
+Definition foreign_ok (c : case) : bool := foreign_from (repeat None 8) (c_ops c) (c_obs c).
+
+(* [nopanic_ok]: C14 / C17 (oracle 6): no observation is a panic or a runaway-allocation marker *)
+Definition nopanic_ok (c : case) : bool := no_panic_oracle c.
+
 (* oracles by number (tools/families/tdigest.py: ORACLES) *)
-Definition oracles : list (Z * (case -> bool)) := [(0, prop_ok); (1, tie_ok); (2, c15_ok)].
+Definition oracles : list (Z * (case -> bool)) :=
+  [(0, prop_ok); (1, tie_ok); (2, c15_ok); (3, codec_ok); (4, twin_ok); (5, foreign_ok); (6, nopanic_ok)].
